@@ -442,6 +442,33 @@ func Catalogue() []Edit {
 			}
 			return true
 		})
+		// only the password inside the url / the proxy url changes (a rotated credential)
+		add(prefix+"/url-password", func(s *Spec, t *rapid.T) bool {
+			for i := range get(s) {
+				if r := &get(s)[i]; strings.Contains(r.URL, ":urlPassW0rd@") {
+					r.URL = strings.Replace(r.URL, ":urlPassW0rd@", ":rotatedPassW0rd@", 1)
+					return true
+				}
+			}
+			return false
+		})
+		add(prefix+"/proxy-password", func(s *Spec, t *rapid.T) bool {
+			for i := range get(s) {
+				if r := &get(s)[i]; strings.Contains(r.Proxy, ":proxyPassW0rd@") {
+					r.Proxy = strings.Replace(r.Proxy, ":proxyPassW0rd@", ":rotatedPassW0rd@", 1)
+					return true
+				}
+			}
+			return false
+		})
+		add(prefix+"/proxy_url", func(s *Spec, t *rapid.T) bool {
+			rs := get(s)
+			if len(rs) == 0 {
+				return false
+			}
+			rs[0].Proxy = otherOf(rs[0].Proxy, "http://other-egress.internal:3128", "http://egress.internal:3128")
+			return true
+		})
 		add(prefix+"/remote_timeout", func(s *Spec, t *rapid.T) bool {
 			rs := get(s)
 			if len(rs) == 0 {
@@ -534,6 +561,24 @@ func Catalogue() []Edit {
 		}
 		s.AMs[0].Timeout = otherOf(s.AMs[0].Timeout, "7s", "8s")
 		return true
+	})
+	add("alerting/alertmanager/proxy-password", func(s *Spec, t *rapid.T) bool {
+		for i := range s.AMs {
+			if a := &s.AMs[i]; strings.Contains(a.Proxy, ":proxyPassW0rd@") {
+				a.Proxy = strings.Replace(a.Proxy, ":proxyPassW0rd@", ":rotatedPassW0rd@", 1)
+				return true
+			}
+		}
+		return false
+	})
+	add("alerting/alertmanager/consul-token", func(s *Spec, t *rapid.T) bool {
+		for i := range s.AMs {
+			if a := &s.AMs[i]; a.ConsulToken != "" {
+				a.ConsulToken += "-rotated"
+				return true
+			}
+		}
+		return false
 	})
 	add("alerting/alertmanager/secret", func(s *Spec, t *rapid.T) bool {
 		for i := range s.AMs {
